@@ -180,7 +180,7 @@ impl Check for C08 {
         let mut fs = FaultStats::default();
         let mut doc = cases::doc_opts_for(tier, &mut rng);
         doc.pay.max_len = doc.pay.max_len.min(300);
-        let io = InputOpts { doc, faulted_pct: 25, truncated_pct: 15, random_pct: 0, soup_pct: 0, max_faults: 2, mid_document_pct: 8 };
+        let io = InputOpts { doc, faulted_pct: 25, truncated_pct: 15, random_pct: 3, soup_pct: 7, max_faults: 2, mid_document_pct: 8 };
         let mut gi = cases::gen_input(&mut rng, &spec, &io, &mut fs);
         let mut deep: Option<u64> = None;
         if rng.chance(1, 300) {
@@ -301,6 +301,8 @@ impl Check for C08 {
             "valid" => "input_valid",
             "byte-faulted" => "input_byte_faulted",
             "truncated" => "input_truncated",
+            "random" => "input_random",
+            "header-soup" => "input_header_soup",
             _ => "input_replayed",
         });
         let mut nt = false;
